@@ -68,6 +68,8 @@ def c02(tier):
                                                                 "max_nodes": sizes(tier, 1500, 6000)}, s))
     e2 = F.with_e2(F.curated()[:10] + F.curated_items()[:11])
     run.add_jobs(jobs_for(e2, {"pause": 1, "cancel": 1, "sample": sizes(tier, 3, 5), "max_nodes": sizes(tier, 1200, 6000)}, s))
+    run.add_jobs(jobs_for(F.curated_delay() + F.curated_retry()[:6], {"delayed": True, "pause": 1, "cancel": 1,
+                                                                     "max_nodes": sizes(tier, 1500, 6000)}, s))
     return run.finish("model_checking",
                       "definitions x outcomes x report orders x every placement of one pause(+resume, also while still pausing) and one cancel; "
                       "E2 alphabet (actions that pause/cancel themselves, go pending, time out) on curated shapes incl. with-items",
@@ -101,6 +103,11 @@ def c04(tier):
     defs = F.curated() + F.random_family(1300 + s, sizes(tier, 40, 400), nmax=4)
     run.add_jobs(jobs_for(defs, {"probe_reqs": True, "pause": 1, "cancel": 1, "max_nodes": sizes(tier, 2500, 8000)}, s))
     run.add_jobs(jobs_for(F.curated_items()[:14], {"probe_reqs": True, "max_nodes": sizes(tier, 1500, 6000)}, s))
+    # actions that cancel / pause themselves or go pending: the workflow reaches pausing / canceling through task
+    # events while siblings are still running; every request is probed there as well
+    e2 = F.with_e2(F.curated()[:8] + F.curated_items()[:8])
+    run.add_jobs(jobs_for(e2, {"probe_reqs": True, "pause": 1, "cancel": 1, "sample": sizes(tier, 3, 5),
+                               "max_nodes": sizes(tier, 1500, 6000)}, s))
     # lazy provider: offered tasks may still be unstarted when the workflow terminates
     run.add_jobs(jobs_for(F.curated(), {"lazy": True, "max_nodes": sizes(tier, 1500, 6000)}, s))
     lz = F.random_family(1350 + s, sizes(tier, 40, 400), nmax=4)
@@ -223,6 +230,11 @@ def c08(tier):
     for d in base:
         scen.extend(G.fate_assignments(d, cap=sizes(tier, 6, 16), rng=rng))
     run.add_jobs(jobs_for(scen, {"max_nodes": sizes(tier, 2500, 10000)}, s, ("yaql", "jinja")))
+    # providers that report `delayed` first: a delayed action is in flight like any other
+    dscen = []
+    for d in F.curated_delay():
+        dscen.extend(G.fate_assignments(d, cap=8, rng=rng))
+    run.add_jobs(jobs_for(dscen, {"delayed": True, "max_nodes": sizes(tier, 2500, 10000)}, s))
     run.add_groups(G.order_groups(run.results))
     return run.finish("model_checking",
                       "acyclic definitions x outcome fixed per task: all linearisations of the completion partial "
@@ -570,7 +582,7 @@ def replay(prop, path):
         print("no %s clause fails on this replay" % prop)
         return 0
     r = X.run_schedule(rp["def"], rp["schedule"], lang=rp.get("lang", "yaql"), tok=rp.get("tok", "task"),
-                       lazy=bool(rp.get("env", {}).get("lazy")))
+                       lazy=bool(rp.get("env", {}).get("lazy")), delayed=bool(rp.get("env", {}).get("delayed")))
     tree = X.Tree(rp["def"])
     tree.add_steps(0, r.steps, None)
     run = P.Run(prop, "quick", [prop + "_"])
